@@ -768,6 +768,9 @@ pub const SELFDESTRUCT_FORMS: &[(&str, Kind, &str)] = &[
     ("guarded-check-call", Near, "function kill() public { check(msg.sender); selfdestruct(payable(owner)); }"),
     ("guarded-member-check-call", Near, "function kill() public { acl.check(msg.sender, 1); selfdestruct(payable(owner)); }"),
     ("guarded-nested-check-call", Near, "function kill() public { require(isOwner(msg.sender)); selfdestruct(payable(owner)); }"),
+    ("guarded-check-call-second-argument", Near, "function kill() public { checkRole(1, msg.sender); selfdestruct(payable(owner)); }"),
+    ("guarded-check-call-last-of-three", Near, "function kill() public { acl.check(1, owner, msg.sender); selfdestruct(payable(owner)); }"),
+    ("guarded-require-second-argument-call", Near, "function kill() public { require(true, why(msg.sender)); selfdestruct(payable(owner)); }"),
     ("guarded-assert", Near, "function kill() public { assert(owner == msg.sender); selfdestruct(payable(msg.sender)); }"),
     ("guarded-after-the-call", Near, "function kill() public { selfdestruct(payable(owner)); require(msg.sender == owner); }"),
     ("guarded-in-branch", Near, "function kill(uint q) public { if (q > 0) { require(msg.sender == owner); } selfdestruct(payable(owner)); }"),
@@ -815,6 +818,7 @@ pub const SD_PROTECTED: &[(&str, &str, &str)] = &[
     ("require-right", "external", "require(@O@ == msg.sender, \"no\");"),
     ("require-ne-right", "public", "require(address(0) != msg.sender);"),
     ("check-call", "public", "check(msg.sender);"),
+    ("check-call-second-argument", "public", "checkRole(1, msg.sender);"),
     ("nested-check-call", "external", "require(isOwner(msg.sender));"),
     ("internal", "internal", ""),
 ];
